@@ -699,7 +699,7 @@ def run(ctx: Ctx):
 
     # 3. generated histories
     r = ctx.rng
-    n_hist = 150 if ctx.quick else 1000
+    n_hist = 120 if ctx.quick else 600
     n_hist = int(os.environ.get("C01_NHIST", n_hist))      # development knob only; the registered command does not set it
     nops = (8, 16) if ctx.quick else (10, 28)
     hists = []
